@@ -761,6 +761,88 @@ fn g_dynamic_quantize(r: &mut Rng) -> Case {
     Case::new("DynamicQuantizeLinear", "").input(T::f32(&s, r)).nout(3)
 }
 
+fn g_lstm(r: &mut Rng) -> Case {
+    let (seq, batch, inp, hid) = (dimnz(r, 3), dimnz(r, 2), dimnz(r, 3), dimnz(r, 2));
+    let bidi = r.chance(1, 3);
+    let nd = if bidi { 2 } else { 1 };
+    let mut c = Case::new("LSTM", if bidi { "bidirectional" } else { "forward" })
+        .input(T::f32(&[seq, batch, inp], r))
+        .input(T::f32(&[nd, 4 * hid, inp], r))
+        .input(T::f32(&[nd, 4 * hid, hid], r))
+        .int("hidden_size", hid as i64)
+        .nout(3);
+    if bidi {
+        c = c.attr("direction", Attr::Str("bidirectional".into()));
+    }
+    c
+}
+fn g_gru(r: &mut Rng) -> Case {
+    let (seq, batch, inp, hid) = (dimnz(r, 3), dimnz(r, 2), dimnz(r, 3), dimnz(r, 2));
+    let bidi = r.chance(1, 3);
+    let nd = if bidi { 2 } else { 1 };
+    let mut c = Case::new("GRU", if bidi { "bidirectional" } else { "forward" })
+        .input(T::f32(&[seq, batch, inp], r))
+        .input(T::f32(&[nd, 3 * hid, inp], r))
+        .input(T::f32(&[nd, 3 * hid, hid], r))
+        .int("hidden_size", hid as i64)
+        .int("linear_before_reset", 1)
+        .nout(2);
+    if bidi {
+        c = c.attr("direction", Attr::Str("bidirectional".into()));
+    }
+    c
+}
+fn g_grid_sample(r: &mut Rng) -> Case {
+    let (n, ch) = (dimnz(r, 2), dimnz(r, 2));
+    let x = vec![n, ch, dimnz(r, 4), dimnz(r, 4)];
+    let g = vec![n, dimnz(r, 3), dimnz(r, 3), 2];
+    let mut grid = T::f32(&g, r);
+    for v in grid.data.iter_mut() {
+        *v = (*v).clamp(-1, 1);
+    }
+    Case::new("GridSample", "").input(T::f32(&x, r)).input(grid)
+}
+fn g_matmul_integer(r: &mut Rng) -> Case {
+    let (m, k, n) = (dimnz(r, 4), dimnz(r, 4), dimnz(r, 4));
+    let mut a = T::i32(&[m, k], r, 0, 5);
+    a.dt = "u8";
+    a.ot = onnx::UINT8;
+    let mut b = T::i32(&[k, n], r, -5, 5);
+    b.dt = "i8";
+    b.ot = onnx::INT8;
+    Case::new("MatMulInteger", "").input(a).input(b)
+}
+fn g_random_uniform(r: &mut Rng) -> Case {
+    let s = shape_nz(r, 1, 3, 4);
+    Case::new("RandomUniform", "").ints("shape", &s.iter().map(|d| *d as i64).collect::<Vec<_>>()).attr("seed", Attr::Float(1.0))
+}
+fn g_random_normal_like(r: &mut Rng) -> Case {
+    let s = shape(r, 0, 3, 4);
+    Case::new("RandomNormalLike", "").input(T::f32(&s, r)).attr("seed", Attr::Float(1.0))
+}
+fn g_gelu(r: &mut Rng) -> Case { unary("Gelu", r) }
+fn g_erf(r: &mut Rng) -> Case { unary("Erf", r) }
+fn g_log_softmax(r: &mut Rng) -> Case {
+    let s = shape_nz(r, 1, 3, 4);
+    Case::new("LogSoftmax", "").input(T::f32(&s, r)).int("axis", -1)
+}
+fn g_dequantize(r: &mut Rng) -> Case {
+    let s = shape_nz(r, 1, 3, 4);
+    let mut x = T::i32(&s, r, -5, 5);
+    x.dt = "i8";
+    x.ot = onnx::INT8;
+    Case::new("DequantizeLinear", "").input(x).constant(T::new(&[], "f32", vec![2]))
+}
+fn g_eyelike(r: &mut Rng) -> Case {
+    let s = vec![dimnz(r, 4), dimnz(r, 4)];
+    Case::new("EyeLike", "").input(T::f32(&s, r))
+}
+fn g_not(r: &mut Rng) -> Case {
+    let s = shape(r, 0, 3, 4);
+    Case::new("Not", "").input(T::i32(&s, r, 0, 1).ot(onnx::BOOL))
+}
+fn g_isnan(r: &mut Rng) -> Case { unary("IsNaN", r) }
+
 fn catalogue() -> Vec<(&'static str, Generator)> {
     vec![
         ("Add", g_add as Generator), ("Sub", g_sub), ("Mul", g_mul), ("Div", g_div), ("Equal", g_equal),
@@ -783,5 +865,9 @@ fn catalogue() -> Vec<(&'static str, Generator)> {
         ("Einsum", g_einsum), ("LayerNormalization", g_layernorm), ("BatchNormalization", g_batchnorm),
         ("Trilu", g_trilu), ("ScatterElements", g_scatter_elements), ("Dropout", g_dropout),
         ("InstanceNormalization", g_instance_norm), ("DynamicQuantizeLinear", g_dynamic_quantize),
+        ("LSTM", g_lstm), ("GRU", g_gru), ("GridSample", g_grid_sample), ("MatMulInteger", g_matmul_integer),
+        ("RandomUniform", g_random_uniform), ("RandomNormalLike", g_random_normal_like), ("Gelu", g_gelu), ("Erf", g_erf),
+        ("LogSoftmax", g_log_softmax), ("DequantizeLinear", g_dequantize), ("EyeLike", g_eyelike), ("Not", g_not),
+        ("IsNaN", g_isnan),
     ]
 }
